@@ -64,7 +64,7 @@ def parsePf : String → Option PrefilterConfig
   | "none" => some .none
   | _ => none
 
-def parseRanker (s : String) : Option (UInt8 → UInt8) :=
+def parseRankerMm (s : String) : Option (UInt8 → UInt8) :=
   if s == "default" then some Pair.defaultRank else do
     let t ← parseHexPlain s
     if t.size == 256 then some (fun b => (t[b.toNat]?).getD 0) else none
@@ -120,7 +120,7 @@ def handleMemmem (op : String) (args : List String) : Option String :=
   | "find", [cfg, pf, ranker, skips, skipped, needle, hbase, hay] => do
     let cfg ← parseMemmemCfg cfg
     let pf ← parsePf pf
-    let rank ← parseRanker ranker
+    let rank ← parseRankerMm ranker
     let skips ← skips.toNat?
     let skipped ← skipped.toNat?
     if skips ≥ 2 ^ 32 || skipped ≥ 2 ^ 32 then none else
@@ -135,7 +135,7 @@ def handleMemmem (op : String) (args : List String) : Option String :=
   | "fnew", [cfg, pf, ranker, needle] => do
     let cfg ← parseMemmemCfg cfg
     let pf ← parsePf pf
-    let rank ← parseRanker ranker
+    let rank ← parseRankerMm ranker
     let n := mmNeedle (← parseHex needle)
     some (fmtRes (fun (f : Finder) => f.searcher.strategyName) 1 (mmBuild cfg pf rank n {}))
   | "rfind", [cfg, needle, hbase, hay] => do
@@ -155,7 +155,7 @@ def handleMemmem (op : String) (args : List String) : Option String :=
   | "finditer", [cfg, pf, ranker, needle, hbase, hay, ops] => do
     let cfg ← parseMemmemCfg cfg
     let pf ← parsePf pf
-    let rank ← parseRanker ranker
+    let rank ← parseRankerMm ranker
     let n := mmNeedle (← parseHex needle)
     let hbase ← hbase.toNat?
     let h := mmHay hbase (← parseHex hay)
